@@ -149,6 +149,9 @@ theorem addAddress_binv {h : Holder} {n : Nat} (hb : BInv h n) (addr : Nat) (hn 
         · rw [if_neg hc] at hid'
           exfalso; apply hc; simpa using hid'
 
+theorem init_binv : BInv init 0 :=
+  ⟨init_inv, by simp [init], by simp [init], by simp [init], by intro id h; simp [init] at h⟩
+
 theorem step_binv {h : Holder} {n : Nat} (hb : BInv h n) (op : Op) (hok : okOp h op) (hn : 8 * (n + 1) < U64) :
     BInv (step h op) (n + 1) := by
   cases op with
@@ -177,9 +180,7 @@ theorem step_binv {h : Holder} {n : Nat} (hb : BInv h n) (op : Op) (hok : okOp h
       exact ⟨h2.inv, h2.slots, h2.len, h2.noTab, h2.tab⟩
   | flatten => exact absurd hok (by simp [okOp])
   | relocate b => exact absurd hok (by simp [okOp])
-
-theorem init_binv : BInv init 0 :=
-  ⟨init_inv, by simp [init], by simp [init], by simp [init], by intro id h; simp [init] at h⟩
+  | reinit => exact init_binv.mono (Nat.zero_le _)
 
 theorem foldl_binv (ops : List Op) (h : Holder) (n : Nat) (hb : BInv h n) (hok : BuildOK h ops) (hn : 8 * (n + ops.length + 1) < U64) :
     BInv (ops.foldl step h) (n + ops.length) := by
